@@ -354,8 +354,24 @@ class C15(Prop):
                    "the inner net.Conn returns 0 <= n <= len(buf)",
                    "x/net/http2's Framer accepts/rejects frames as parse_buf says (frame.go v0.37.0 transcribed; exercised on every run, "
                    "including one malformation per frame type)")
-    level_text = ""
-    level_note = ""
+    level_text = ("Machine-checked proof (Coq). L1: every Read/Write/Close returns exactly the inner conn's bytes, count and error from "
+                  "ANY tracer state, and (never_crashes) for any op list, any bytes and any HPACK behaviour the run exists: no nil "
+                  "dereference is reachable (stream-table invariant). L2: for ALL byte streams, ALL partitions into chunks and ANY decoder, "
+                  "feeding the chunks one by one leaves the frame tracer in the same state and emits the same frames as one call on the "
+                  "concatenation (trace-append lemma; preface, 9-byte header, payload, header blocks continued in CONTINUATION frames); "
+                  "broken is absorbing. L3: for ALL lists of decoded frames (any number of streams, any interleaving, well-formed or not) "
+                  "the traces a stream completes and the state it ends in are those of the run that sees only the frames concerning it "
+                  "(its own and GOAWAYs) - the trace is a function of the projection; two interleavings with the same projection give the "
+                  "same traces; the retry collector delivers only the retry's trace after a retryable refusal, and exactly once the parked "
+                  "one when no retry comes (timer or connection end). The model is tied to http2.go on every run by the differential check.")
+    level_note = ("PARTIAL: that a well-formed single stream's projection yields exactly ONE trace with exactly its request line, headers, "
+                  "messages, status, trailers and end/reset is NOT a Coq theorem (stream_independent reduces every interleaving to the "
+                  "single-stream run; the content of that run is validated by the differential check against the real code only, and by "
+                  "the Examples); likewise `no trace without test name` and `streams at or below GOAWAY's last-stream-id are untouched` are "
+                  "exercised, not proved. Trusted: Coq kernel, extraction, OCaml driver, harness, generator. HPACK decoding is an oracle "
+                  "(function of the direction's header-block history); Framer.ReadFrame's structural checks are transcribed from x/net "
+                  "v0.37.0 and compared on every run; compression of end-stream messages is outside the modelled fragment (identity only); "
+                  "strconv.Atoi signs in :status not modelled; time.AfterFunc is the explicit TimesUp action; lock-region atomicity assumed.")
     technique = "Coq: chunking independence by a trace-append lemma, stream independence by simulation over arbitrary frame lists; differential run"
 
     def nontrivial(self, case, res):
@@ -369,6 +385,23 @@ class C15(Prop):
         if case[0] == "c15.fuzz":
             return "passthrough differs: bytes/counts/errors seen through the tracing conn are not the inner conn's"
         return "traces / passthrough differ from the proved model"
+
+    def extra(self, ctx):
+        """regression probe for the hostile end-stream length (DESIGN.md section 9 #19, fixed in /repo a5f7fc6 by C14):
+        a response envelope announcing 0xFFFFFFFF bytes must not make the tracer allocate anything like it"""
+        out = os.path.join(ctx.work, "alloc.out")
+        core.run_go(ctx.bin("tr"), self.packages["tr"], "/dev/null", out, timeout=120, testname="TestVerifC15Alloc")
+        body = open(out).read().strip()
+        ctx.notes["alloc_probe"] = body
+        try:
+            alloc = int(body.split("total_alloc_delta=")[1].split()[0])
+        except (IndexError, ValueError):
+            raise core.HarnessError("C15 alloc probe: unreadable output %r" % body)
+        if alloc > (64 << 20):
+            return [core.Violation("tracer allocated %d bytes for an end-stream envelope that only announced its length" % alloc,
+                                   "; C15 TestVerifC15Alloc: response DATA 80 ff ff ff ff 00 on a traced gRPC stream: %s\n" % body,
+                                   "no-failing-input-found")]
+        return []
 
     # ------------------------------------------------------------------------------------------
     def _synth(self, items):
@@ -414,7 +447,7 @@ class C15(Prop):
             for m in all_merges(a, b):
                 items.append((PREFACE, m, ["frame", "rand"], [variant % 2]))
         # (2) random exchanges
-        n = 420 if quick else 9000
+        n = 420 if quick else 6000
         for k in range(n):
             ns = rng.choice([1, 2, 2, 3, 3, 4])
             r = rng.random()
@@ -439,6 +472,9 @@ class C15(Prop):
                 for mode in modes:
                     tail = tail_ops(rng, side)
                     ops = build_ops(rng, side, len(pre), frames, lens, mode, tail)
+                    if rng.random() < 0.12:
+                        # a read timeout in the middle is not fatal: nothing may be cancelled
+                        ops.insert(rng.randint(0, len(ops)), [0, 0, 2])
                     yield self._case("c15.conn", side, reqb, respb, reqt, respt, ops)
             if len(fuzz_src) < 200:
                 fuzz_src.append((reqb, respb))
